@@ -30,6 +30,7 @@ def main(argv=None) -> int:
         return 0
     prop = args.prop.upper()
     seed = int(os.environ.get("VERIF_SEED", "0") or 0)
+    ctx = None
     try:
         model = Model(args.root)
         ctx = Ctx(prop, args.tier, model, seed)
@@ -39,6 +40,12 @@ def main(argv=None) -> int:
         return finish(ctx, explanation, getattr(mod, "LEVEL", "other"))
     except AnalysisError as e:
         print(f"ANALYSIS-ERROR property={prop}: {e}")
+        # violations established by the rules that ran before the analysis broke down are still violations
+        if ctx is not None and ctx.findings:
+            ctx.write = False
+            rc = finish(ctx, "analysis incomplete: " + str(e)[:200], "other")
+            if rc == 1:
+                return 1
         return 2
     except Exception:
         traceback.print_exc()
